@@ -7,6 +7,8 @@ import (
 	"go/types"
 	"slices"
 	"strings"
+	"sync"
+	"sync/atomic"
 
 	"golang.org/x/tools/go/ssa"
 )
@@ -166,7 +168,12 @@ func (p *Path) ensureInit(pkg *ssa.Package) {
 	}
 	saved := p.tolerant
 	p.tolerant = true
-	defer func() { p.tolerant = saved }()
+	s0 := p.steps
+	defer func() {
+		p.tolerant = saved
+		v, _ := initSteps.LoadOrStore(pkg.Pkg.Path(), new(int64))
+		atomic.AddInt64(v.(*int64), int64(p.steps-s0))
+	}()
 	p.callSSA(nil, initFn, nil, nil)
 }
 
@@ -193,6 +200,8 @@ func (p *Path) call(caller *frame, fnv Value, args []Value) Value {
 	}
 	panic(engineError{fmt.Sprintf("cannot call %T", fnv)})
 }
+
+var initSteps sync.Map
 
 var noopPkgPrefixes = []string{
 	"go.uber.org/zap", "github.com/prometheus/client_golang", "github.com/VictoriaMetrics/metrics",
@@ -365,6 +374,14 @@ func (p *Path) visitTolerant(fr *frame, instr ssa.Instruction) (k int) {
 			k = kNext
 		}
 	}()
+	// generated protobuf packages initialise large descriptor byte arrays
+	// element by element; nothing interpreted reads them (protoimpl is not
+	// interpreted), so those element stores are skipped
+	if st, ok := instr.(*ssa.Store); ok && fr.fn.Pkg != nil && fr.fn.Pkg.Pkg.Path() == regattaMod+"/regattapb" {
+		if _, isElem := st.Addr.(*ssa.IndexAddr); isElem {
+			return kNext
+		}
+	}
 	// poison propagates through every instruction except plain moves
 	switch instr.(type) {
 	case *ssa.Store, *ssa.If, *ssa.Jump, *ssa.Return, *ssa.Phi:
